@@ -13,7 +13,7 @@ Failing(ev) ==
   ELSE IF SourcesAgree(ev.outcomes) THEN <<>> ELSE <<"sources_same">>
 
 RECURSIVE KeyStr(_)
-KeyStr(ks) == IF ks = <<>> THEN "" ELSE (IF Head(ks).under THEN "u" ELSE "-") \o (IF Head(ks).suf THEN "s" ELSE "-")
+KeyStr(ks) == IF ks = <<>> THEN "" ELSE (IF Head(ks).under THEN "u" ELSE "-") \o (IF Head(ks).suf = "end" THEN "s" ELSE IF Head(ks).suf = "mid" THEN "m" ELSE "-")
                                     \o (IF Len(ks) > 1 THEN "," ELSE "") \o KeyStr(Tail(ks))
 Sig(ev) == IF ev.k = "list" THEN "list[" \o KeyStr(ev.keys) \o "]/prefix=" \o ToString(ev.prefixGiven) \o "/page=" \o ToString(ev.size) \o "/" \o ev.how
            ELSE "load/" \o ev.what
